@@ -354,4 +354,97 @@ theorem applyCore_replay (k : Kind) (v : Val) (ops : Delta) :
     rw [hrem]
     exact ⟨rfl, LEq.foldl_set (fun e => e.2) ops.mods he⟩
 
+theorem getKey_none_of_hasKey {p : Pos} {m : List (Pos × Int)} (h : hasKey p m = false) : getKey p m = none := by
+  rw [hasKey_eq] at h
+  cases hg : getKey p m with
+  | none => rfl
+  | some x => rw [hg] at h; cases h
+
+theorem mem_keys_iff (p : Pos) (m : List (Pos × Int)) : p ∈ keysOf m ↔ hasKey p m = true :=
+  ⟨hasKey_of_mem_keys, mem_keys_of_hasKey⟩
+
+theorem keysOf_map0 (l : List (Pos × Int)) : keysOf (l.map (fun e => (e.1, (0 : Int)))) = keysOf l := by
+  simp [keysOf, List.map_map, Function.comp_def]
+
+/-- the removals of a re-bind difference: keys of the old contents that the new target lacks -/
+theorem mem_diffRems (o n : Val) (p : Pos) :
+    p ∈ (keysOf o.items).filter (fun p => !hasKey p n.items) ↔ hasKey p o.items = true ∧ hasKey p n.items = false := by
+  simp only [List.mem_filter, mem_keys_iff, Bool.not_eq_true']
+
+theorem diffRems_effective (o n : Val) :
+    ((keysOf o.items).filter (fun p => !hasKey p n.items)).filter (fun p => hasKey p o.items) =
+      (keysOf o.items).filter (fun p => !hasKey p n.items) :=
+  List.filter_eq_self.mpr (fun p hp => ((mem_diffRems o n p).mp hp).1)
+
+/-- E3: the re-bind difference from `o` to `n`, applied to `o`, is reported unchanged and yields `n` -/
+theorem diff_replay (k : Kind) (o n : Val) (hs : Sorted n.items)
+    (hc : k = .fix → ∀ p, hasKey p o.items = true → hasKey p n.items = true) :
+    (applyCore k o (diff k o n)).2 = diff k o n ∧ LEq k (applyCore k o (diff k o n)).1.items n.items := by
+  cases k
+  · -- fix
+    refine ⟨rfl, ?_⟩
+    intro p
+    simp only [look, applyCore, diff, getKey_foldl_setKey, lastWrite_eq_getKey hs]
+    cases hg : getKey p n.items with
+    | some x => rfl
+    | none =>
+      show getKey p o.items = none
+      cases ho : hasKey p o.items with
+      | false => exact getKey_none_of_hasKey ho
+      | true =>
+        have := hc rfl p ho
+        rw [hasKey_eq, hg] at this
+        cases this
+  · -- set
+    simp only [applyCore, diff]
+    rw [diffRems_effective]
+    have hadd : ((n.items.filter (fun e => !hasKey e.1 o.items)).map (fun e => (e.1, (0 : Int)))).filter
+          (fun e => !hasKey e.1 (((keysOf o.items).filter (fun p => !hasKey p n.items)).foldl (fun m p => eraseKey p m) o.items)) =
+        (n.items.filter (fun e => !hasKey e.1 o.items)).map (fun e => (e.1, (0 : Int))) := by
+      apply List.filter_eq_self.mpr
+      intro e he
+      obtain ⟨e0, he0, rfl⟩ := List.mem_map.mp he
+      have h0 : hasKey e0.1 o.items = false := by simpa using (List.mem_filter.mp he0).2
+      simp [hasKey_foldl_erase, h0]
+    rw [hadd]
+    refine ⟨by simp [List.map_map, Function.comp_def], ?_⟩
+    intro p
+    simp only [look, hasKey_foldl_set0, hasKey_foldl_erase, keysOf_map0]
+    have hA : p ∈ keysOf (n.items.filter (fun e => !hasKey e.1 o.items)) ↔
+        hasKey p n.items = true ∧ hasKey p o.items = false := by
+      constructor
+      · intro h
+        simp only [keysOf, List.mem_map, List.mem_filter] at h
+        obtain ⟨e, ⟨he, hne⟩, rfl⟩ := h
+        exact ⟨hasKey_of_mem_keys (List.mem_map.mpr ⟨e, he, rfl⟩), by simpa using hne⟩
+      · rintro ⟨h1, h2⟩
+        have := mem_keys_of_hasKey h1
+        simp only [keysOf, List.mem_map] at this
+        obtain ⟨e, he, rfl⟩ := this
+        simp only [keysOf, List.mem_map, List.mem_filter]
+        exact ⟨e, ⟨he, by simp [h2]⟩, rfl⟩
+    have hR := mem_diffRems o n p
+    cases h1 : hasKey p n.items <;> cases h2 : hasKey p o.items <;> simp_all
+  · -- dict
+    simp only [applyCore, diff]
+    rw [diffRems_effective]
+    refine ⟨rfl, ?_⟩
+    intro p
+    simp only [look, getKey_foldl_setKey, lastWrite_eq_getKey hs]
+    cases hg : getKey p n.items with
+    | some x => rfl
+    | none =>
+      have hl := look_foldl_erase .dict ((keysOf o.items).filter (fun p => !hasKey p n.items)) o.items p
+      simp only [look] at hl
+      show getKey p _ = none
+      rw [hl]
+      have hn : hasKey p n.items = false := by rw [hasKey_eq, hg]; rfl
+      by_cases ho : hasKey p o.items = true
+      · have : p ∈ (keysOf o.items).filter (fun p => !hasKey p n.items) := (mem_diffRems o n p).mpr ⟨ho, hn⟩
+        simp [this]
+      · have ho' : hasKey p o.items = false := by simpa using ho
+        have : p ∉ (keysOf o.items).filter (fun p => !hasKey p n.items) := fun hh => by
+          have := ((mem_diffRems o n p).mp hh).1; rw [ho'] at this; cases this
+        simp [this, getKey_none_of_hasKey ho']
+
 end HgVerif.FeedbackRef
